@@ -310,6 +310,13 @@ def m_range(interp, args, kwargs):
         a = (args[0], args[1], 1)
     else:
         a = tuple(args)
+    step = a[2]
+    if isinstance(step, int) and not isinstance(step, bool):
+        if step == 0:
+            interp.raise_("ValueError")  # range() arg 3 must not be zero
+    elif kind_of(step) in (INT, BOOL):
+        if interp.ctx.branch(ops.as_int_term(step) == 0, "range-step-zero"):
+            interp.raise_("ValueError")
     return Opaque("range", None, start=a[0], stop=a[1], step=a[2])
 
 
@@ -462,6 +469,20 @@ def m_type(interp, args, kwargs):
         return ClassRef(v.cls)
     if isinstance(v, SExc):
         return v.cls
+    if isinstance(v, bool) or kind_of(v) == BOOL:
+        return TypeRef("bool")
+    k = kind_of(v)
+    for kk, nm in ((INT, "int"), (REAL, "float"), (STR, "str"), (BYTES, "bytes")):
+        if k == kk:
+            return TypeRef(nm)
+    if v is None:
+        return TypeRef("NoneType")
+    if isinstance(v, tuple):
+        return TypeRef("tuple")
+    if isinstance(v, (PyList, SList)):
+        return TypeRef("list")
+    if isinstance(v, (PyDict, SDict)):
+        return TypeRef("dict")
     return Opaque("type", None, of=v)
 
 
